@@ -934,17 +934,6 @@ func (fc *FnCtx) doRunDefers(x *ssa.RunDefers) {
 	}
 	sort.Slice(defs, func(i, j int) bool { return defs[i].Pos() > defs[j].Pos() })
 	for _, d := range defs {
-		ws := fc.callWrites(d)
-		onlyAlloc := !ws.All
-		for n := range ws.Names {
-			if n != "alloc" {
-				onlyAlloc = false
-			}
-		}
-		if onlyAlloc {
-			continue
-		}
-		callee := fc.resolveCallee(d)
 		if !blockReaches(d.Block(), x.Block()) {
 			continue // this defer statement cannot have executed on a path to this return
 		}
@@ -955,17 +944,81 @@ func (fc *FnCtx) doRunDefers(x *ssa.RunDefers) {
 				inLoop = true
 			}
 		}
-		if callee != nil && registered && !inLoop {
-			if ct := fc.eng.ContractFor(callee); ct != nil {
-				if _, done := fc.vals[d.Common().Value]; done || d.Common().StaticCallee() != nil {
-					s := fc.buildSite(d)
-					fc.applyContract(s, ct, callee)
+		// call-site clauses of the contract apply to deferred calls where they
+		// run, i.e. here (arguments were evaluated at the defer statement)
+		specs := fc.siteSpecs(d)
+		var site *CallSite
+		var pre *Env
+		certain := registered && !inLoop
+		if len(specs) > 0 {
+			site = fc.buildSite(d)
+			pre = fc.env.clone()
+			for _, cs := range specs {
+				cs.Matched++
+				if !certain || len(cs.Requires) == 0 {
 					continue
+				}
+				sc := fc.siteScope(site, fc.env, fc.entryEnv)
+				for _, r := range cs.Requires {
+					name := fmt.Sprintf("%s:call(%s)#%d.requires#%d", fc.name, cs.Callee, fc.callOrdOf[d][cs.Callee], r.N)
+					if fc.countReturns() > 1 {
+						name += fmt.Sprintf("@return%d", fc.counters["return"]+1)
+					}
+					fc.assert("call-requires", name, sc.trBool(r.E), r.Src, site.pos, false)
 				}
 			}
 		}
-		fc.applyWriteSet(ws)
+		fc.runDeferred(d, x, certain)
+		for _, cs := range specs {
+			if len(cs.Sets) == 0 {
+				continue
+			}
+			if !certain {
+				// the deferred call may or may not have been registered on
+				// this path: the ghosts it sets become arbitrary
+				for _, st := range cs.Sets {
+					fc.havoc("g_" + st.Name)
+				}
+				continue
+			}
+			if site.results == nil {
+				fc.freshResults(site)
+			}
+			sc := fc.siteScope(site, fc.env, pre)
+			for _, st := range cs.Sets {
+				t, _ := sc.tr(st.E)
+				if _, ok := fc.ghostTypes[st.Name]; !ok {
+					fc.fail("set of undeclared ghost %s", st.Name)
+				}
+				fc.assign("g_"+st.Name, t)
+			}
+		}
 	}
+}
+
+// runDeferred applies the effect of one deferred call at a return.
+func (fc *FnCtx) runDeferred(d *ssa.Defer, x *ssa.RunDefers, certain bool) {
+	ws := fc.callWrites(d)
+	onlyAlloc := !ws.All
+	for n := range ws.Names {
+		if n != "alloc" {
+			onlyAlloc = false
+		}
+	}
+	if onlyAlloc {
+		return
+	}
+	callee := fc.resolveCallee(d)
+	if callee != nil && certain {
+		if ct := fc.eng.ContractFor(callee); ct != nil {
+			if _, done := fc.vals[d.Common().Value]; done || d.Common().StaticCallee() != nil {
+				s := fc.buildSite(d)
+				fc.applyContract(s, ct, callee)
+				return
+			}
+		}
+	}
+	fc.applyWriteSet(ws)
 }
 
 func (fc *FnCtx) doReturn(x *ssa.Return) {
@@ -1144,6 +1197,15 @@ func (fc *FnCtx) checkAllowed(x ssa.CallInstruction, s *CallSite) {
 		}
 		for _, a := range fc.contract.OnlyCalls {
 			if a == k {
+				// recorded, so that the evidence shows the check was made
+				ob := &Obligation{Name: fmt.Sprintf("%s:only-calls(%s)#%d", fc.name, k, fc.nextCount("oc:"+k)), Kind: "only-calls", Func: fc.name,
+					Desc: "effectful call is in the permitted list", Block: fc.blocks[0], Index: 0, Cond: TrueT, fc: fc,
+					Props: fc.contract.Props, Status: "discharged", Solver: "structural"}
+				if s.pos.IsValid() && fc.eng.Fset != nil {
+					p := fc.eng.Fset.Position(s.pos)
+					ob.Pos = fmt.Sprintf("%s:%d", relPath(fc.eng.RepoDir, p.Filename), p.Line)
+				}
+				fc.obligations = append(fc.obligations, ob)
 				return
 			}
 		}
